@@ -186,8 +186,10 @@ func runTryPair(p *core.Prog) *core.Result {
 			res.Bad(key, p.Pos(w.Instr.Pos()), "a try frame is turned into a tryPanicMarker frame in place without tagging it (finallyRet = <const>) so that handleThrow can skip it for uncatchable payloads; nobody pops it when an interrupt unwinds through the finally block")
 			continue
 		}
-		if handleThrowSkips(a, tag) {
-			res.OK(key, p.Pos(w.Instr.Pos()), fmt.Sprintf("frame tagged finallyRet=%d and handleThrow pops frames with that tag for payloads it does not convert", tag))
+		if skips, always := handleThrowSkips(a, tag); skips && always {
+			res.OK(key, p.Pos(w.Instr.Pos()), fmt.Sprintf("frame tagged finallyRet=%d and handleThrow pops frames with that tag for every payload", tag))
+		} else if skips {
+			res.Bad(key+":every payload", p.Pos(w.Instr.Pos()), fmt.Sprintf("handleThrow pops frames tagged finallyRet=%d only when the payload is not a JS exception (the test sits under `ex == nil`): an exception thrown inside a finally block that generator return() is running stops at this frame as if a Go caller owned it - the body's enclosing catch/finally never sees it, the body's outer try frames stay on vm.tryStack and the exception then escapes the caller's try/catch as well", tag))
 		} else {
 			res.Bad(key, p.Pos(w.Instr.Pos()), fmt.Sprintf("frame tagged finallyRet=%d becomes a marker, but handleThrow has no `finallyRet == %d` test leading to popTryFrame: an interrupt/stack overflow inside a finally block run by generator return() leaves this frame on vm.tryStack and the owner's defer pops it instead of its own", tag, tag))
 		}
@@ -256,8 +258,7 @@ func inPlaceTag(p *core.Prog, w *core.FieldWrite, finallyRet *types.Var) (int64,
 }
 
 // handleThrowSkips: handleThrow contains `tf.finallyRet == tag` whose true edge leads to popTryFrame.
-func handleThrowSkips(a *tryAnchors, tag int64) bool {
-	ok := false
+func handleThrowSkips(a *tryAnchors, tag int64) (ok bool, everyPayload bool) {
 	core.AllInstrs(a.handleThrow, func(in ssa.Instruction) {
 		b, isb := in.(*ssa.BinOp)
 		if !isb || b.Op != token.EQL {
@@ -280,9 +281,21 @@ func handleThrowSkips(a *tryAnchors, tag int64) bool {
 			for _, c := range core.CallsIn(a.handleThrow, a.pop) {
 				if e.True == c.Block() || (len(e.True.Instrs) == 1 && len(e.True.Succs) == 1 && e.True.Succs[0] == c.Block()) {
 					ok = true
+					// is the test itself evaluated whatever the payload is?
+					indep := true
+					for _, cp := range core.ControllingConds(b.Block()) {
+						if x, _, isNil := core.IsNilCompare(cp.Cond); isNil {
+							if pt, isPtr := x.Type().Underlying().(*types.Pointer); isPtr && core.IsGojaNamed(pt.Elem(), "Exception") {
+								indep = false
+							}
+						}
+					}
+					if indep {
+						everyPayload = true
+					}
 				}
 			}
 		}
 	})
-	return ok
+	return ok, everyPayload
 }
